@@ -112,7 +112,7 @@ prop("C02", [
     dict(engine="kani", sets=["net_subnet"]),
     dict(POOL_B, checks=["allocate_address/C02"]),
 ], explanation="pool membership before every grant (allocate_address ensures; handle_discover/handle_request: yiaddr lies in the set the policies selected), which policy's set is selected (first applicable sibling: unit policy), apply-subnet expansion == every host address, default addresses pool == hosts minus server minus used",
-    assumptions=["apply-range (RangeInclusive loop) NOT decided: no ghost-iterator spec in this vstd, unreachable for Kani", "YAML text -> values (yaml-rust) not under contract",
+    assumptions=["apply-range: the RangeInclusive for-loop is verified in the loop form of rule R21 (this vstd has no ghost iterator for RangeInclusive)", "YAML text -> values (yaml-rust) not under contract",
                  "the address arithmetic base == network() and get_or_insert_with glue around the slices is assumed (slice preconditions)"])
 
 prop("C03", [
